@@ -76,12 +76,34 @@ class C10(Check):
                 ops.append(("rawcopy", srcz, k, None if k else b"renamed"))
             ops += [("file", b"last", Opts()), ("write", b"tail"), ("finish",)]
             progs.append(ops)
+        # everything else the writer emits without encryption: every method x {empty, one byte, text} contents, directories,
+        # symlinks, large_file, aligned and extra-data entries, in random orders (an EMPTY entry of a compressing method
+        # still has a non-empty payload)
+        for a in range(12 if self.tier == "quick" else 300):
+            ops = []
+            for i in range(r.choice([1, 2, 3, 5, 8])):
+                o_ = Opts(method=r.choice([0, 8, 8, 12, 93]), large=r.random() < 0.15)
+                c_ = r.choice([b"", b"", b"x", b"streamed content " * r.randrange(1, 30)])
+                kind = r.random()
+                if kind < 0.6:
+                    ops += [("file", b"w%d" % i, o_)] + ([("write", c_)] if c_ or r.random() < 0.5 else [])
+                elif kind < 0.7:
+                    ops += [("dir", b"wd%d" % i, o_)]
+                elif kind < 0.8:
+                    ops += [("symlink", b"wl%d" % i, r.choice([b"", b"target"]), o_)]
+                elif kind < 0.9:
+                    ops += [("aligned", b"wa%d" % i, o_, r.choice([4, 64, 4096])), ("write", c_)]
+                else:
+                    ops += [("extra", b"wx%d" % i, o_), ("write", struct.pack("<HH", 0xcafe, 3) + b"abc"), ("endextra",), ("write", c_)]
+            progs.append(ops + [("finish",)])
         _, outs_w = wprog.with_tables(self.exes["debug"], [dict(ops=o) for o in progs])
         for o in outs_w:
             _, wd = wprog.final_bytes(o)
             if wd:
                 for p_ in (b"", b"\x00", b"\x03\xff"):
                     cases.append(("stream_vs_seek %s %s" % (hexs(wd), hexs(p_)), dict(k="vs", expect="ok", n=len(zipfile_names(wd)), pat=p_.hex(), impl_only=True)))
+                cases.append(("stream_vs_seek %s xff %s" % (hexs(wd), hexs((bytes([7]) * (len(wd) + 64))[:65535])), dict(k="vs", expect="ok", n=len(zipfile_names(wd)), pat="ff", impl_only=True, chunked=True)))
+                cases.append(("visit " + hexs(wd), dict(k="visit", expect="ok", n=len(zipfile_names(wd)), impl_only=True)))
         # must be refused, not mis-read
         for ents in ([Entry(b"p", b"plain"), Entry(b"e", b"secret", password=b"pw")], [Entry(b"p", b"plain"), Entry(b"dd", b"data", method=8, dd="sig32")],
                      [Entry(b"a", b"aes", password=b"pw", aes=(2, 1, bytes(8)))]):
